@@ -144,7 +144,8 @@ def repo_tests_under_monitor(ctx, accept):
 
 
 HISTORIES = ["fresh", "fresh", "fresh", "solve_then_move_leaf", "solve_then_phase_conf", "solve_then_change_comp", "index_gaps",
-             "identity_change_comp", "solve_then_retune"]
+             "identity_change_comp", "solve_then_retune", "solve_then_retune", "solve_then_phase_edit", "solve_then_phase_edit",
+             "solve_then_phase_edit"]
 
 
 def build_with_history(ctx, spec, mode, hseed, kw=None, prefer=None):
@@ -212,6 +213,53 @@ def build_with_history(ctx, spec, mode, hseed, kw=None, prefer=None):
                 # replacing a component (here: by an identical one) resets its phase configuration
                 so.change_comp(c["name"], comp=S.make_comp(ns, c), group=c.get("group", ""), rail=c.get("rail", ""))
                 em[c["name"]]["phase"] = None
+            ctx.count("history", mode)
+            return eff, so
+    if mode == "solve_then_phase_edit" and spec.get("phases"):
+        # the system is first configured with OTHER phase configurations (components off where they will be on and
+        # the other way round, loads with other per-phase values) and other phase durations, solved with the
+        # arguments of the judged call, and only then given its real configuration - no structural edit in between
+        names = list(spec["phases"])
+        detour = copy.deepcopy(spec)
+        changed = []
+        for c in detour["comps"]:
+            k_ = c["kind"]
+            if k_ in ("RLoss", "VLoss", "Rectifier") or rng.random() < 0.4:
+                continue
+            final = c.get("phase")
+            if k_ in S.LOADS:
+                key = {"PLoad": "pwr", "ILoad": "ii", "RLoad": "rs"}[k_]
+                base = abs(c["args"][key])
+                conf = {p_: G.sig(base * rng.choice([0.3, 0.7, 1.6])) for p_ in names if rng.random() < 0.6}
+            else:
+                on = set(final) if final else set(names)
+                conf = [p_ for p_ in names if p_ not in on] or [p_ for p_ in names if rng.random() < 0.5] or names[:1]
+            if conf == final or (not conf and not final):
+                continue
+            c["phase"] = conf
+            changed.append(c["name"])
+        retime = rng.random() < 0.5
+        if changed or retime:
+            so = fresh(detour)
+            P = {p_: G.sig(float(v) * rng.choice([0.25, 3.0]) + 1.0) for p_, v in spec["phases"].items()}
+            if retime:
+                so.set_sys_phases(P)  # (the caller's own dict object; edited in place and handed over again below)
+            with H.quiet():
+                H.solve(so, **dict(kw or {}, energy=True))
+                if rng.random() < 0.5:
+                    H.solve(so, **(kw or {}))
+            eff = copy.deepcopy(spec)
+            em = S.comp_map(eff)
+            for n in changed:
+                final = cm[n].get("phase")
+                if final is None:
+                    final = {} if cm[n]["kind"] in S.LOADS else []  # an empty configuration = "no configuration"
+                    em[n]["phase"] = None
+                so.set_comp_phases(n, copy.deepcopy(final))
+            if retime:
+                for p_ in list(P):
+                    P[p_] = spec["phases"][p_]
+                so.set_sys_phases(P)
             ctx.count("history", mode)
             return eff, so
     if mode == "solve_then_retune":
